@@ -76,6 +76,8 @@ static void puthex(const unsigned char *b, size_t n)
 
 /* ------------------------------------------------------------------ oracle recording */
 static int recording = 0;
+static char snap[1 << 16];
+static size_t snap_len;
 
 int __wrap_snprintf(char *s, size_t n, const char *fmt, ...)
 {
@@ -149,12 +151,24 @@ int __wrap_snprintf(char *s, size_t n, const char *fmt, ...)
 		}
 		va_end(aq);
 	}
+	if (recording) {
+		/* libc may store bytes even when it fails (returns < 0): keep the prior content to see which */
+		snap_len = n < sizeof(snap) ? n : sizeof(snap);
+		memcpy(snap, s, snap_len);
+	}
 	ret = vsnprintf(s, n, fmt, ap);
 	va_end(ap);
 	if (recording) {
 		size_t w = 0;
 		if (n > 0 && ret >= 0) {
 			w = ((size_t)ret < n - 1 ? (size_t)ret : n - 1) + 1;
+		} else if (ret < 0) {
+			size_t i;
+			for (i = 0; i < snap_len; i++) {
+				if (snap[i] != s[i]) {
+					w = i + 1;
+				}
+			}
 		}
 		printf(" %zu %d ", n, ret);
 		puthex((const unsigned char *)s, w);
@@ -188,8 +202,10 @@ static int parse_args(char *save)
 	while ((tok = strtok_r(NULL, " \n", &save)) != NULL && n < MAXARGS) {
 		switch (tok[0]) {
 		case 'i': slots[n] = (uint64_t)(int64_t)(int)strtoll(tok + 1, NULL, 0); break;
-		case 'l': slots[n] = (uint64_t)(long)strtoll(tok + 1, NULL, 0); break;
-		case 'q': slots[n] = (uint64_t)strtoll(tok + 1, NULL, 0); break;
+		case 'l':
+		case 'q':
+			slots[n] = tok[1] == '-' ? (uint64_t)strtoll(tok + 1, NULL, 0) : (uint64_t)strtoull(tok + 1, NULL, 0);
+			break;
 		case 'p': slots[n] = (uint64_t)strtoull(tok + 1, NULL, 0); break;
 		case 'd': slots[n] = (uint64_t)strtoull(tok + 1, NULL, 16); break;
 		case 's':
